@@ -206,6 +206,7 @@ func (reg *Reg) TagList(ctx context.Context, r ref.Ref, opts ...scheme.TagOpts) 
 		return tl, err
 	}
 
+	linkSeen := map[string]bool{}
 	for {
 		// if limit reached, stop searching
 		if config.Limit > 0 && len(tl.Tags) >= config.Limit {
@@ -230,6 +231,11 @@ func (reg *Reg) TagList(ctx context.Context, r ref.Ref, opts ...scheme.TagOpts) 
 			if err != nil {
 				return tl, fmt.Errorf("tag list failed to parse Link: %w", err)
 			}
+			// a registry sending a Link that was already followed would be paged forever
+			if linkSeen[link.String()] {
+				return tl, fmt.Errorf("tag list received a Link that was already followed: %s", link.String())
+			}
+			linkSeen[link.String()] = true
 			tlAdd, err := reg.tagListLink(ctx, r, config, link)
 			if err != nil {
 				return tl, fmt.Errorf("tag list failed to get Link: %w", err)
